@@ -129,10 +129,12 @@ def results_doc(repo, fmt):
             alts.append((conds, t))
     split(rv, [])
     full = []
+    full_terms = []
     for c, t in alts:
         items = doc.doc_of(t)
         if has_text(items, 'matching: '):
             full.append(items)
+            full_terms.append(t)
     if len(full) != 1:
         raise Unknown('%d result texts carry the matching line' % len(full))
     # arguments handed to the statistic helpers
@@ -143,7 +145,10 @@ def results_doc(repo, fmt):
         # a statistic / listing helper: a private Model method that takes the list of matched pairs as its first argument
         if e.kind == 'call' and e.target.cls == 'Model' and e.target.name.startswith('_') and not e.target.name.startswith('__') and e.target.name not in not_stat and e.args \
                 and len(e.target.params) >= 2:
-            if not any(c.kind == 'call' and c.target.cls == 'Model' and c.target.name.startswith('_') and c.target.name not in not_stat for c, br in ctx):
+            # ... and whose result is printed: it occurs in the result text (a helper used only in a test, or inside the
+            # stability check, is not a statistic)
+            printed = isinstance(e.ret, tuple) and contains(full_terms[0], lambda x: x == e.ret)
+            if printed and not any(c.kind == 'call' and c.target.cls == 'Model' and c.target.name.startswith('_') and c.target.name not in not_stat for c, br in ctx):
                 args.append((e.target.name, e.args[0]))
     return f, full[0], args
 
